@@ -218,6 +218,12 @@ class Engine:
         cov["trusted_base"] = TRUSTED_BASE_COMMON + list(spec.trusted_extra) + (
             ["library axioms: " + ", ".join(axioms_used)] if axioms_used else [])
         cov["translators"] = gen_notes
+        if tier == "thorough" and proof["ok"]:
+            okc, summary, dtc = coqchk_properties(spec.pid)
+            cov["coqchk"] = {"cmd": f"coqchk -silent -o -Q theories Tulz -Q gen TulzGen -R build/{spec.pid} '' Properties_{spec.pid}",
+                             "ok": okc, "summary": summary, "wall_s": round(dtc, 1)}
+            if not okc:
+                broken.append("coqchk does not accept the compiled Properties module: " + " ".join(summary)[:300])
 
         # 2. correspondence
         okm, logm = build_modelrun()
